@@ -145,4 +145,5 @@ ENTRY = {'coq_dir': 'C07',
                  'C07_node_feeds_manager (every interleaving of node events), C07_manager_invariant (every history), C07_block_* (every schedule of '
                  'sends, receives and polls)',
                  'loop-level: the task is polled by hand, races resolved by the observed arm (both outcomes accepted by the model, each must '
-                 'report); end-to-end: 1-2 worker threads, connect/close cycles']]}
+                 'report); end-to-end: 1-2 worker threads, connect/close cycles']],
+ 'replay_rewrites_case': 7}
